@@ -26,6 +26,7 @@ typedef u16 verif_bitset16;                                /* std::bitset<16> */
 #define VERIF_OK 0
 #define VERIF_ABORT 1     /* deliberate ASSERT / UNREACHABLE abort */
 #define VERIF_UNIMPL 2    /* UnimplementedException */
+#define VERIF_CRASH 4     /* division by zero, wild access: not a legal exit */
 #define VERIF_BADCALL 3   /* std::bad_function_call: invoking an empty std::function (not a legal exit) */
 extern int verif_outcome;
 
@@ -38,14 +39,12 @@ extern int verif_outcome;
 #    define VERIF_ASSERT(c, msg, line) ((c) ? (void)0 : (verif_outcome = VERIF_ABORT, __CPROVER_assume(0)))
 #    define VERIF_THROW() (verif_outcome = VERIF_UNIMPL, __CPROVER_assume(0))
 #  endif
-#  define VERIF_INDETERMINATE(T) ((T)verif_nondet_u64())
+#  define VERIF_INDETERMINATE(T) ((T)nondet_u64())
 #  define VERIF_FN_CHECK(f) __CPROVER_assert((f).set, "REPO-CALLBACK std::function invoked has a target")
-u64 verif_nondet_u64(void);
+u64 nondet_u64(void);
 #else
 #  include <setjmp.h>
 #  include <string.h>
-extern jmp_buf verif_jb;
-extern int verif_jb_armed;
 void verif_native_exit(int outcome, const char *msg);
 #  define VERIF_MODEL_ASSERT(c, msg) ((c) ? (void)0 : verif_native_exit(99, "MODEL-LIMIT: " msg))
 #  define VERIF_ASSERT(c, msg, line) ((c) ? (void)0 : verif_native_exit(VERIF_ABORT, msg))
@@ -89,6 +88,37 @@ VERIF_DEFINE_QUEUE(u32)
 #define VERIF_VCAP 4
 typedef struct verif_vec_ptr { void *e[VERIF_VCAP]; u64 len; } verif_vec_ptr;
 #define VERIF_VEC_PUSH(v, p) (VERIF_MODEL_ASSERT((v)->len < VERIF_VCAP, "callback vector capacity"), (v)->e[(v)->len] = (void *)(p), (v)->len++)
+
+/* a / b and a % b with a non-constant divisor (only Btdmp::Skip): no installed back end decides division or multiplication by
+ * a symbolic operand (DESIGN.md probe P11), so machine division is AXIOMATISED: the quotient/remainder pair is a nondeterministic
+ * pair constrained by the division theorem, memoised so that n / d and n % d of the same operands agree, and related to the pair
+ * of the previous query by the successor rule  (n+1) divmod d = (q, r+1) if r+1 < d else (q+1, 0).  Both facts are elementary
+ * arithmetic (listed under trusted_base; the successor rule is checked exhaustively for 8-bit operands by harness h_udivmod_model).
+ * Division by zero is a proof obligation, not an assumption. */
+#ifdef VERIF_CBMC
+extern u64 verif_dm_n, verif_dm_d, verif_dm_q, verif_dm_r;
+extern bool verif_dm_valid;
+u64 nondet_u64(void);
+static inline void verif_udivmod(u64 n, u64 d)
+{
+    __CPROVER_assert(d != 0, "REPO-DIV division by zero");
+    __CPROVER_assume(d != 0);
+    if (verif_dm_valid && verif_dm_n == n && verif_dm_d == d) return;
+    if (verif_dm_valid && verif_dm_d == d && verif_dm_n + 1 == n && n != 0) {
+        if (verif_dm_r + 1 < d) { verif_dm_r = verif_dm_r + 1; } else { verif_dm_q = verif_dm_q + 1; verif_dm_r = 0; }
+    } else {
+        u64 q = nondet_u64(), r = nondet_u64();
+        __CPROVER_assume(r < d && q <= n && q * d + r == n);
+        verif_dm_q = q; verif_dm_r = r;
+    }
+    verif_dm_n = n; verif_dm_d = d; verif_dm_valid = 1;
+}
+#  define VERIF_UDIV(n, d) (verif_udivmod((n), (d)), verif_dm_q)
+#  define VERIF_UMOD(n, d) (verif_udivmod((n), (d)), verif_dm_r)
+#else
+#  define VERIF_UDIV(n, d) ((d) ? (n) / (d) : (verif_native_exit(4, "division by zero"), 0ull))
+#  define VERIF_UMOD(n, d) ((d) ? (n) % (d) : (verif_native_exit(4, "division by zero"), 0ull))
+#endif
 
 #define VERIF_ARR_EQ(a, b) (__builtin_memcmp(&(a), &(b), sizeof(a)) == 0)
 #endif
